@@ -204,7 +204,7 @@ theorem late_install (pc : Pc) (h : pc.late = true) : pc.install = true := by
 
 /-- nobody holds a member file (lock directory absent or empty): `rename` succeeds / `rmdir` succeeds -/
 theorem inv_nomem {s : Sys} (hI : Inv s) {i : Nat} (hi : i < s.procs.length) (s1 : Sys) (p' : Proc)
-    (hpr : s1.procs = s.procs) (hp : s1.pin = s.pin ∨ s1.pin = none)
+    (hpr : s1.procs = s.procs)
     (hno : ∀ j, j < s.procs.length → (getP s j).pc.member = false)
     (hf : p'.attachFails = (getP s i).attachFails)
     (hm : p'.pc.member = true → s1.lockdir = some [(p'.et, i)])
@@ -248,5 +248,933 @@ theorem inv_nomem {s : Sys} (hI : Inv s) {i : Nat} (hi : i < s.procs.length) (s1
     split
     · exact hnr
     · exact hI.noRmtree _ hj
+
+theorem hasName_of_mem {ms : List (Nat × Nat)} {e j : Nat} (h : (e, j) ∈ ms) : hasName ms e = true := by
+  simp only [hasName, List.any_eq_true]; exact ⟨_, h, by simp⟩
+
+theorem mem_rmName {ms : List (Nat × Nat)} {e e' j : Nat} (h : (e, j) ∈ ms) (hne : e ≠ e') :
+    (e, j) ∈ rmName ms e' := by
+  simp only [rmName, List.mem_filter]; exact ⟨h, by simpa using hne⟩
+
+/-- `open(lockdir/<et>.lock, 'x')` succeeds: the name was free, `i` becomes a (non-installing) member -/
+theorem inv_join {s : Sys} (hI : Inv s) {i : Nat} (hi : i < s.procs.length) (s1 : Sys) (p' : Proc)
+    (ms : List (Nat × Nat)) (hpr : s1.procs = s.procs) (hl0 : s.lockdir = some ms)
+    (hfree : hasName ms p'.et = false) (hl : s1.lockdir = some (ms ++ [(p'.et, i)])) (hp : s1.pin = s.pin)
+    (hf : p'.attachFails = (getP s i).attachFails)
+    (hin : p'.pc.install = false) (hnr : p'.pc ≠ .excRmtree) : Inv (setP s1 i p') := by
+  have hi1 : i < s1.procs.length := by rw [hpr]; exact hi
+  have hg : ∀ j, getP (setP s1 i p') j = if j = i then p' else getP s j := by
+    intro j; rw [getP_setP _ _ _ _ hi1]; split <;> simp [getP_congr hpr]
+  have hlen : (setP s1 i p').procs.length = s.procs.length := by simp [hpr]
+  have hother : ∀ j, j < s.procs.length → (getP s j).pc.member = true → (getP s j).et ≠ p'.et := by
+    intro j hj hmj e
+    obtain ⟨ms', h1, h2⟩ := hI.mem j hj hmj
+    rw [hl0] at h1; cases h1
+    rw [e] at h2; rw [hasName_of_mem h2] at hfree; cases hfree
+  refine ⟨?_, ?_, ?_, ?_, ?_, ?_⟩
+  · intro j hj; rw [hg]; rw [hlen] at hj
+    split
+    · next h => subst h; rw [hf]; exact hI.nofault _ hj
+    · exact hI.nofault _ hj
+  · intro j hj hmj; rw [hlen] at hj; rw [hg] at hmj ⊢
+    simp only [setP_lockdir, hl]
+    split at hmj
+    · next h => subst h; simp
+    · next h =>
+      simp only [h, if_false]
+      obtain ⟨ms', h1, h2⟩ := hI.mem j hj hmj
+      rw [hl0] at h1; cases h1
+      exact ⟨_, rfl, List.mem_append_left _ h2⟩
+  · intro a b ha hb hab hma hmb
+    rw [hlen] at ha hb; rw [hg] at hma hmb ⊢; rw [hg]
+    by_cases h1 : a = i <;> by_cases h2 : b = i <;> simp only [h1, h2, if_true, if_false] at hma hmb ⊢
+    · exact absurd (h1.trans h2.symm) hab
+    · exact fun e => hother b hb hmb e.symm
+    · exact hother a ha hma
+    · exact hI.dist a b ha hb hab hma hmb
+  · intro a b ha hb hab
+    rw [hlen] at ha hb; rw [hg, hg]
+    by_cases h1 : a = i <;> by_cases h2 : b = i <;> simp only [h1, h2, if_true, if_false]
+    · exact absurd (h1.trans h2.symm) hab
+    · intro ⟨x, _⟩; rw [hin] at x; cases x
+    · intro ⟨_, y⟩; rw [hin] at y; cases y
+    · exact hI.single a b ha hb hab
+  · intro j hj hlj; rw [hlen] at hj; rw [hg] at hlj
+    simp only [setP_pin, hp]
+    split at hlj
+    · have := late_install _ hlj; rw [hin] at this; cases this
+    · exact hI.pinFree _ hj hlj
+  · intro j hj; rw [hlen] at hj; rw [hg]
+    split
+    · exact hnr
+    · exact hI.noRmtree _ hj
+
+/-- `os.remove(lockdir/<et>.lock)` by the member `i` itself: only its own file goes -/
+theorem inv_leave {s : Sys} (hI : Inv s) {i : Nat} (hi : i < s.procs.length) (s1 : Sys) (p' : Proc)
+    (ms : List (Nat × Nat)) (hpr : s1.procs = s.procs) (hl0 : s.lockdir = some ms)
+    (hwas : (getP s i).pc.member = true)
+    (hl : s1.lockdir = some (rmName ms (getP s i).et)) (hp : s1.pin = s.pin)
+    (hf : p'.attachFails = (getP s i).attachFails)
+    (hm : p'.pc.member = false) (hnr : p'.pc ≠ .excRmtree) : Inv (setP s1 i p') := by
+  have hi1 : i < s1.procs.length := by rw [hpr]; exact hi
+  have hg : ∀ j, getP (setP s1 i p') j = if j = i then p' else getP s j := by
+    intro j; rw [getP_setP _ _ _ _ hi1]; split <;> simp [getP_congr hpr]
+  have hlen : (setP s1 i p').procs.length = s.procs.length := by simp [hpr]
+  have hin : p'.pc.install = false := by
+    cases h : p'.pc.install
+    · rfl
+    · have := install_member _ h; rw [hm] at this; cases this
+  refine ⟨?_, ?_, ?_, ?_, ?_, ?_⟩
+  · intro j hj; rw [hg]; rw [hlen] at hj
+    split
+    · next h => subst h; rw [hf]; exact hI.nofault _ hj
+    · exact hI.nofault _ hj
+  · intro j hj hmj; rw [hlen] at hj; rw [hg] at hmj ⊢
+    simp only [setP_lockdir, hl]
+    split at hmj
+    · rw [hm] at hmj; cases hmj
+    · next h =>
+      simp only [h, if_false]
+      obtain ⟨ms', h1, h2⟩ := hI.mem j hj hmj
+      rw [hl0] at h1; cases h1
+      exact ⟨_, rfl, mem_rmName h2 (hI.dist j i hj hi h hmj hwas)⟩
+  · intro a b ha hb hab hma hmb
+    rw [hlen] at ha hb; rw [hg] at hma hmb ⊢; rw [hg]
+    by_cases h1 : a = i <;> by_cases h2 : b = i <;> simp only [h1, h2, if_true, if_false] at hma hmb ⊢
+    · exact absurd (h1.trans h2.symm) hab
+    · rw [hm] at hma; cases hma
+    · rw [hm] at hmb; cases hmb
+    · exact hI.dist a b ha hb hab hma hmb
+  · intro a b ha hb hab
+    rw [hlen] at ha hb; rw [hg, hg]
+    by_cases h1 : a = i <;> by_cases h2 : b = i <;> simp only [h1, h2, if_true, if_false]
+    · exact absurd (h1.trans h2.symm) hab
+    · intro ⟨x, _⟩; rw [hin] at x; cases x
+    · intro ⟨_, y⟩; rw [hin] at y; cases y
+    · exact hI.single a b ha hb hab
+  · intro j hj hlj; rw [hlen] at hj; rw [hg] at hlj
+    simp only [setP_pin, hp]
+    split at hlj
+    · have := late_install _ hlj; rw [hin] at this; cases this
+    · exact hI.pinFree _ hj hlj
+  · intro j hj; rw [hlen] at hj; rw [hg]
+    split
+    · exact hnr
+    · exact hI.noRmtree _ hj
+
+/-- `obj_pin` succeeds: the only participant in the install section leaves it -/
+theorem inv_pin {s : Sys} (hI : Inv s) {i : Nat} (hi : i < s.procs.length) (s1 : Sys) (p' : Proc)
+    (hpr : s1.procs = s.procs) (hl : s1.lockdir = s.lockdir)
+    (hwas : (getP s i).pc.install = true)
+    (hf : p'.attachFails = (getP s i).attachFails) (he : p'.et = (getP s i).et)
+    (hin : p'.pc.install = false) (hnr : p'.pc ≠ .excRmtree) : Inv (setP s1 i p') := by
+  have hi1 : i < s1.procs.length := by rw [hpr]; exact hi
+  have hg : ∀ j, getP (setP s1 i p') j = if j = i then p' else getP s j := by
+    intro j; rw [getP_setP _ _ _ _ hi1]; split <;> simp [getP_congr hpr]
+  have hlen : (setP s1 i p').procs.length = s.procs.length := by simp [hpr]
+  refine ⟨?_, ?_, ?_, ?_, ?_, ?_⟩
+  · intro j hj; rw [hg]; rw [hlen] at hj
+    split
+    · next h => subst h; rw [hf]; exact hI.nofault _ hj
+    · exact hI.nofault _ hj
+  · intro j hj hmj; rw [hlen] at hj; rw [hg] at hmj ⊢
+    simp only [setP_lockdir, hl]
+    split at hmj
+    · next h => subst h; simp only [if_true]; rw [he]; exact hI.mem _ hj (install_member _ hwas)
+    · next h => simp only [h, if_false]; exact hI.mem _ hj hmj
+  · intro a b ha hb hab hma hmb
+    rw [hlen] at ha hb; rw [hg] at hma hmb ⊢; rw [hg]
+    by_cases h1 : a = i <;> by_cases h2 : b = i <;> simp only [h1, h2, if_true, if_false] at hma hmb ⊢
+    · exact absurd (h1.trans h2.symm) hab
+    · rw [he]; exact hI.dist i b hi hb (by omega) (install_member _ hwas) hmb
+    · rw [he]; exact hI.dist a i ha hi (by omega) hma (install_member _ hwas)
+    · exact hI.dist a b ha hb hab hma hmb
+  · intro a b ha hb hab
+    rw [hlen] at ha hb; rw [hg, hg]
+    by_cases h1 : a = i <;> by_cases h2 : b = i <;> simp only [h1, h2, if_true, if_false]
+    · exact absurd (h1.trans h2.symm) hab
+    · intro ⟨x, _⟩; rw [hin] at x; cases x
+    · intro ⟨_, y⟩; rw [hin] at y; cases y
+    · exact hI.single a b ha hb hab
+  · intro j hj hlj; rw [hlen] at hj; rw [hg] at hlj
+    split at hlj
+    · have := late_install _ hlj; rw [hin] at this; cases this
+    · next h => exact absurd ⟨late_install _ hlj, hwas⟩ (hI.single j i hj hi h)
+  · intro j hj; rw [hlen] at hj; rw [hg]
+    split
+    · exact hnr
+    · exact hI.noRmtree _ hj
+
+@[simp] theorem drawEt_pc (p : Proc) : (drawEt p).2.pc = p.pc := by unfold drawEt; split <;> rfl
+@[simp] theorem drawEt_af (p : Proc) : (drawEt p).2.attachFails = p.attachFails := by unfold drawEt; split <;> rfl
+
+theorem nomem {s : Sys} (hI : Inv s) (h : s.lockdir = none ∨ s.lockdir = some []) :
+    ∀ j, j < s.procs.length → (getP s j).pc.member = false := by
+  intro j hj
+  cases hm : (getP s j).pc.member
+  · rfl
+  · obtain ⟨ms, h1, h2⟩ := hI.mem j hj hm
+    rcases h with h | h <;> rw [h] at h1 <;> cases h1
+    cases h2
+
+theorem inv_step {s : Sys} (hI : Inv s) (i : Nat) : Inv (step s i) := by
+  unfold step
+  split
+  case isFalse => exact hI
+  case isTrue hi =>
+    generalize hp : getP s i = p
+    cases hpc : p.pc <;> simp only [stepStart, stepFiles, stepExit, hpc]
+    all_goals (repeat' split)
+    all_goals (try (apply inv_local hI hi <;> simp_all [emit, Pc.member, Pc.install, Pc.late]; done))
+    all_goals (try exact hI)
+    all_goals (try exact hI)
+    all_goals first
+      | (exfalso; have := hI.nofault i hi; simp_all; done)
+      | (exfalso; have := hI.noRmtree i hi; simp_all; done)
+      | (exfalso; have := hI.pinFree i hi (by simp_all [Pc.late]); simp_all; done)
+      | skip
+    all_goals first
+      | (apply inv_leave hI hi <;> first | rfl | assumption | (simp_all [emit, Pc.member, Pc.install, Pc.late]; done))
+      | (apply inv_join hI hi <;> first | rfl | assumption | (simp_all [emit, Pc.member, Pc.install, Pc.late]; done))
+      | (apply inv_pin hI hi <;> first | rfl | assumption | (simp_all [emit, Pc.member, Pc.install, Pc.late]; done))
+      | (apply inv_nomem hI hi <;> first | rfl | exact nomem hI (by simp_all) | (simp_all [emit, Pc.member, Pc.install, Pc.late]; done))
+      | skip
+
+theorem inv_run {s : Sys} (hI : Inv s) (sched : List Nat) : Inv (run s sched) := by
+  induction sched generalizing s with
+  | nil => exact hI
+  | cons i r ih => exact ih (inv_step hI i)
+
+theorem getP_init (cfgs : List Cfg) (fm0 : Option (List Nat)) (i : Nat) (hi : i < (init cfgs fm0).procs.length) :
+    (getP (init cfgs fm0) i).pc = .mkdtemp ∧ ∃ c ∈ cfgs, (getP (init cfgs fm0) i).attachFails = c.attachFails := by
+  simp only [init, List.length_map] at hi
+  simp only [getP, init, List.getD, List.getElem?_map, List.getElem?_eq_getElem hi, Option.map_some, Option.getD_some]
+  exact ⟨trivial, cfgs[i], List.getElem_mem hi, rfl⟩
+
+theorem inv_init (cfgs : List Cfg) (fm0 : Option (List Nat)) (h : NoFault cfgs) : Inv (init cfgs fm0) := by
+  have hpc : ∀ i, i < (init cfgs fm0).procs.length → (getP (init cfgs fm0) i).pc = .mkdtemp :=
+    fun i hi => (getP_init cfgs fm0 i hi).1
+  refine ⟨?_, ?_, ?_, ?_, ?_, ?_⟩
+  · intro i hi
+    obtain ⟨_, c, hc, e⟩ := getP_init cfgs fm0 i hi
+    rw [e]
+    have := List.all_eq_true.mp h c hc
+    simpa using this
+  · intro i hi hm; rw [hpc i hi] at hm; cases hm
+  · intro i j hi _ _ hm; rw [hpc i hi] at hm; cases hm
+  · intro i j hi _ _ ⟨hm, _⟩; rw [hpc i hi] at hm; cases hm
+  · intro i hi hm; rw [hpc i hi] at hm; cases hm
+  · intro i hi; rw [hpc i hi]; decide
+
+/-- **C23, ethertypes**: in every state reachable by any schedule of any number of participants, two
+participants holding a member file (in particular two running participants) have different ethertypes. -/
+theorem ethertypes_distinct : ethertypes_distinct_full :=
+  fun cfgs fm0 sched h => (inv_run (inv_init cfgs fm0 h) sched).dist
+
+/-- **C23, single installer**: at most one participant is between its successful `rename` and its `obj_pin`. -/
+theorem single_installer : single_installer_full :=
+  fun cfgs fm0 sched h => (inv_run (inv_init cfgs fm0 h) sched).single
+
+/-! ### the bitmap file: bit-level lemmas -/
+
+theorem pwriteByte_len {f : List Nat} {k v : Nat} (h : k < f.length) : (pwriteByte f k v).length = f.length := by
+  simp [pwriteByte, h]
+
+theorem pwriteByte_getD {f : List Nat} {k v : Nat} (h : k < f.length) (j : Nat) :
+    (pwriteByte f k v).getD j 0 = if j = k then v else f.getD j 0 := by
+  simp only [pwriteByte, h, if_true, List.getD_eq_getElem?_getD, List.getElem?_set]
+  by_cases e : k = j
+  · subst e; simp
+  · have : ¬ j = k := fun x => e x.symm
+    simp [e, this]
+
+theorem bitSet_setBit {f : List Nat} {k b : Nat} (h : k < f.length) (m : Nat) :
+    bitSet (pwriteByte f k (f.getD k 0 ||| 2 ^ b)) m = (bitSet f m || (m / 8 == k && m % 8 == b)) := by
+  simp only [bitSet, pwriteByte_getD h]
+  by_cases e : m / 8 = k
+  · simp only [e, if_true, Nat.testBit_or, Nat.testBit_two_pow, beq_self_eq_true, Bool.true_and]
+    congr 1
+    by_cases e2 : b = m % 8
+    · subst e2; simp
+    · have : ¬ m % 8 = b := fun x => e2 x.symm
+      simp [e2, this]
+  · simp [e]
+
+theorem bitSet_clearBit {f : List Nat} {k b : Nat} (h : k < f.length) (m : Nat) :
+    bitSet (pwriteByte f k (clearBit (f.getD k 0) b)) m = (bitSet f m && !(m / 8 == k && m % 8 == b)) := by
+  simp only [bitSet, pwriteByte_getD h]
+  by_cases e : m / 8 = k
+  · simp only [e, if_true, clearBit, Nat.testBit_xor, Nat.testBit_and, Nat.testBit_two_pow, beq_self_eq_true, Bool.true_and]
+    by_cases e2 : b = m % 8
+    · subst e2; simp
+    · have : ¬ m % 8 = b := fun x => e2 x.symm
+      simp [e2, this]
+  · simp [e]
+
+/-! ### the invariant behind `fmmu_windows_disjoint_partial` -/
+
+/-- owns a process number in the bitmap (from the `pwrite` that sets its bit to the one that clears it) -/
+def _root_.Ebv.Parallel.Pc.owns : Pc → Bool
+  | .fmUnlock | .running | .removeMember | .rmdir | .detach | .removePin | .mbxRemove
+  | .fmRLock | .fmRRead | .fmRClear => true
+  | _ => false
+
+/-- holds the record lock of the bitmap file -/
+def _root_.Ebv.Parallel.Pc.locked : Pc → Bool
+  | .fmRead | .fmFix | .fmTrunc | .fmSet | .fmUnlock | .fmRRead | .fmRClear | .fmRUnlock => true
+  | _ => false
+
+def fmOf (s : Sys) : List Nat := s.fm.getD []
+
+def ProcOk (p : Proc) : Prop :=
+  (∀ d ∈ p.fmDraws, d < fmProcs) ∧ (p.nAddr + 1) * fmGroup ≤ fmWindow
+
+structure FInv (s : Sys) : Prop where
+  file : s.fm.isSome = true ∧ (fmOf s).length = fmSize
+  cfg : ∀ i, i < s.procs.length → ProcOk (getP s i)
+  own : ∀ i, i < s.procs.length → (getP s i).pc.owns = true →
+    bitSet (fmOf s) (getP s i).fmNo = true ∧ (getP s i).fmNo < fmProcs
+  dist : ∀ i j, i < s.procs.length → j < s.procs.length → i ≠ j →
+    (getP s i).pc.owns = true → (getP s j).pc.owns = true → (getP s i).fmNo ≠ (getP s j).fmNo
+  lock : ∀ i, i < s.procs.length → (getP s i).pc.locked = true → s.fmLock = some i
+  bufSet : ∀ i, i < s.procs.length → (getP s i).pc = .fmSet → (getP s i).fmBuf = fmOf s
+  bufClr : ∀ i, i < s.procs.length → (getP s i).pc = .fmRClear →
+    (getP s i).fmBuf = [(fmOf s).getD ((getP s i).fmNo / 8) 0]
+  unreach : ∀ i, i < s.procs.length →
+    (getP s i).pc ≠ .fmWrite ∧ (getP s i).pc ≠ .fmFix ∧ (getP s i).pc ≠ .fmTrunc
+
+/-- the obligations of one operation of participant `i`, with the frame for everybody else -/
+theorem finv_update {s : Sys} (hI : FInv s) {i : Nat} (hi : i < s.procs.length) (s1 : Sys) (p' : Proc)
+    (hpr : s1.procs = s.procs)
+    (hfile : s1.fm.isSome = true ∧ (fmOf s1).length = fmSize)
+    (hcfg : ProcOk p')
+    (hkeep : ∀ j, j < s.procs.length → j ≠ i → (getP s j).pc.owns = true → bitSet (fmOf s1) (getP s j).fmNo = true)
+    (hown : p'.pc.owns = true → (bitSet (fmOf s1) p'.fmNo = true ∧ p'.fmNo < fmProcs) ∧
+      ∀ j, j < s.procs.length → j ≠ i → (getP s j).pc.owns = true → (getP s j).fmNo ≠ p'.fmNo)
+    (hlock : (p'.pc.locked = true → s1.fmLock = some i) ∧
+      ∀ j, j < s.procs.length → j ≠ i → (getP s j).pc.locked = true → s1.fmLock = some j)
+    (hbs : (p'.pc = .fmSet → p'.fmBuf = fmOf s1) ∧
+      ∀ j, j < s.procs.length → j ≠ i → (getP s j).pc = .fmSet → (getP s j).fmBuf = fmOf s1)
+    (hbc : (p'.pc = .fmRClear → p'.fmBuf = [(fmOf s1).getD (p'.fmNo / 8) 0]) ∧
+      ∀ j, j < s.procs.length → j ≠ i → (getP s j).pc = .fmRClear →
+        (getP s j).fmBuf = [(fmOf s1).getD ((getP s j).fmNo / 8) 0])
+    (hun : p'.pc ≠ .fmWrite ∧ p'.pc ≠ .fmFix ∧ p'.pc ≠ .fmTrunc) : FInv (setP s1 i p') := by
+  have hi1 : i < s1.procs.length := by rw [hpr]; exact hi
+  have hg : ∀ j, getP (setP s1 i p') j = if j = i then p' else getP s j := by
+    intro j; rw [getP_setP _ _ _ _ hi1]; split <;> simp [getP_congr hpr]
+  have hlen : (setP s1 i p').procs.length = s.procs.length := by simp [hpr]
+  have hfm : fmOf (setP s1 i p') = fmOf s1 := rfl
+  refine ⟨?_, ?_, ?_, ?_, ?_, ?_, ?_, ?_⟩
+  · exact hfile
+  · intro j hj; rw [hlen] at hj; rw [hg]; split
+    · exact hcfg
+    · exact hI.cfg j hj
+  · intro j hj ho; rw [hlen] at hj; rw [hg] at ho ⊢; rw [hfm]
+    split at ho
+    · next h => simp only [h, if_true]; exact (hown ho).1
+    · next h => simp only [h, if_false]; exact ⟨hkeep j hj h ho, (hI.own j hj ho).2⟩
+  · intro a b ha hb hab hoa hob
+    rw [hlen] at ha hb; rw [hg] at hoa hob ⊢; rw [hg]
+    by_cases h1 : a = i <;> by_cases h2 : b = i <;> simp only [h1, h2, if_true, if_false] at hoa hob ⊢
+    · exact absurd (h1.trans h2.symm) hab
+    · exact fun e => (hown hoa).2 b hb h2 hob e.symm
+    · exact (hown hob).2 a ha h1 hoa
+    · exact hI.dist a b ha hb hab hoa hob
+  · intro j hj hl; rw [hlen] at hj; rw [hg] at hl
+    simp only [setP_fmLock]
+    split at hl
+    · next h => rw [h]; exact hlock.1 hl
+    · next h => exact hlock.2 j hj h hl
+  · intro j hj hpc; rw [hlen] at hj; rw [hg] at hpc ⊢; rw [hfm]
+    split at hpc
+    · next h => simp only [h, if_true]; exact hbs.1 hpc
+    · next h => simp only [h, if_false]; exact hbs.2 j hj h hpc
+  · intro j hj hpc; rw [hlen] at hj; rw [hg] at hpc ⊢; rw [hfm]
+    split at hpc
+    · next h => simp only [h, if_true]; exact hbc.1 hpc
+    · next h => simp only [h, if_false]; exact hbc.2 j hj h hpc
+  · intro j hj; rw [hlen] at hj; rw [hg]; split
+    · exact hun
+    · exact hI.unreach j hj
+
+/-- an operation that does not write the bitmap file -/
+theorem finv_same {s : Sys} (hI : FInv s) {i : Nat} (hi : i < s.procs.length) (s1 : Sys) (p' : Proc)
+    (hpr : s1.procs = s.procs) (hfm : s1.fm = s.fm)
+    (hlock : (p'.pc.locked = true → s1.fmLock = some i) ∧
+      ∀ j, j < s.procs.length → j ≠ i → (getP s j).pc.locked = true → s1.fmLock = some j)
+    (hcfg : p'.fmDraws = (getP s i).fmDraws ∧ p'.nAddr = (getP s i).nAddr)
+    (hown : p'.pc.owns = true → (getP s i).pc.owns = true ∧ p'.fmNo = (getP s i).fmNo)
+    (hbs : p'.pc = .fmSet → p'.fmBuf = fmOf s)
+    (hbc : p'.pc = .fmRClear → p'.fmBuf = [(fmOf s).getD (p'.fmNo / 8) 0])
+    (hun : p'.pc ≠ .fmWrite ∧ p'.pc ≠ .fmFix ∧ p'.pc ≠ .fmTrunc) : FInv (setP s1 i p') := by
+  have hf : fmOf s1 = fmOf s := by simp [fmOf, hfm]
+  refine finv_update hI hi s1 p' hpr ?_ ?_ ?_ ?_ hlock ?_ ?_ hun
+  · rw [hf, hfm]; exact hI.file
+  · have := hI.cfg i hi; unfold ProcOk at this ⊢; rw [hcfg.1, hcfg.2]; exact this
+  · intro j hj _ ho; rw [hf]; exact (hI.own j hj ho).1
+  · intro ho
+    obtain ⟨h1, h2⟩ := hown ho
+    rw [hf, h2]
+    exact ⟨hI.own i hi h1, fun j hj hne hoj => hI.dist j i hj hi hne hoj h1⟩
+  · rw [hf]; exact ⟨hbs, fun j hj _ h => hI.bufSet j hj h⟩
+  · rw [hf]; exact ⟨hbc, fun j hj _ h => hI.bufClr j hj h⟩
+
+theorem finv_local {s : Sys} (hI : FInv s) {i : Nat} (hi : i < s.procs.length) (s1 : Sys) (p' : Proc)
+    (hpr : s1.procs = s.procs) (hfm : s1.fm = s.fm) (hlk : s1.fmLock = s.fmLock)
+    (hlocked : p'.pc.locked = true → (getP s i).pc.locked = true)
+    (hcfg : p'.fmDraws = (getP s i).fmDraws ∧ p'.nAddr = (getP s i).nAddr)
+    (hown : p'.pc.owns = true → (getP s i).pc.owns = true ∧ p'.fmNo = (getP s i).fmNo)
+    (hbs : p'.pc = .fmSet → p'.fmBuf = fmOf s)
+    (hbc : p'.pc = .fmRClear → p'.fmBuf = [(fmOf s).getD (p'.fmNo / 8) 0])
+    (hun : p'.pc ≠ .fmWrite ∧ p'.pc ≠ .fmFix ∧ p'.pc ≠ .fmTrunc) : FInv (setP s1 i p') :=
+  finv_same hI hi s1 p' hpr hfm
+    ⟨fun h => by rw [hlk]; exact hI.lock i hi (hlocked h), fun j hj _ h => by rw [hlk]; exact hI.lock j hj h⟩
+    hcfg hown hbs hbc hun
+
+theorem nobody_locked {s : Sys} (hI : FInv s) {i : Nat} (h : canLock s i = true) :
+    ∀ j, j < s.procs.length → j ≠ i → (getP s j).pc.locked = false := by
+  intro j hj hne
+  cases hl : (getP s j).pc.locked
+  · rfl
+  · have := hI.lock j hj hl
+    simp only [canLock, this] at h
+    exact absurd (by simpa using h) hne
+
+theorem finv_acquire {s : Sys} (hI : FInv s) {i : Nat} (hi : i < s.procs.length) (s1 : Sys) (p' : Proc)
+    (hpr : s1.procs = s.procs) (hfm : s1.fm = s.fm) (hlk : s1.fmLock = some i) (hcan : canLock s i = true)
+    (hcfg : p'.fmDraws = (getP s i).fmDraws ∧ p'.nAddr = (getP s i).nAddr)
+    (hown : p'.pc.owns = true → (getP s i).pc.owns = true ∧ p'.fmNo = (getP s i).fmNo)
+    (hbs : p'.pc = .fmSet → p'.fmBuf = fmOf s)
+    (hbc : p'.pc = .fmRClear → p'.fmBuf = [(fmOf s).getD (p'.fmNo / 8) 0])
+    (hun : p'.pc ≠ .fmWrite ∧ p'.pc ≠ .fmFix ∧ p'.pc ≠ .fmTrunc) : FInv (setP s1 i p') :=
+  finv_same hI hi s1 p' hpr hfm
+    ⟨fun _ => hlk, fun j hj hne h => by rw [nobody_locked hI hcan j hj hne] at h; cases h⟩
+    hcfg hown hbs hbc hun
+
+theorem finv_release {s : Sys} (hI : FInv s) {i : Nat} (hi : i < s.procs.length) (s1 : Sys) (p' : Proc)
+    (hpr : s1.procs = s.procs) (hfm : s1.fm = s.fm)
+    (hwas : (getP s i).pc.locked = true) (hnow : p'.pc.locked = false)
+    (hcfg : p'.fmDraws = (getP s i).fmDraws ∧ p'.nAddr = (getP s i).nAddr)
+    (hown : p'.pc.owns = true → (getP s i).pc.owns = true ∧ p'.fmNo = (getP s i).fmNo)
+    (hbs : p'.pc = .fmSet → p'.fmBuf = fmOf s)
+    (hbc : p'.pc = .fmRClear → p'.fmBuf = [(fmOf s).getD (p'.fmNo / 8) 0])
+    (hun : p'.pc ≠ .fmWrite ∧ p'.pc ≠ .fmFix ∧ p'.pc ≠ .fmTrunc) : FInv (setP s1 i p') :=
+  finv_same hI hi s1 p' hpr hfm
+    ⟨fun h => (by rw [hnow] at h; cases h),
+     fun j hj hne h => absurd (Option.some.inj ((hI.lock j hj h).symm.trans (hI.lock i hi hwas))) hne⟩
+    hcfg hown hbs hbc hun
+
+
+@[simp] theorem drawEt_fmDraws (p : Proc) : (drawEt p).2.fmDraws = p.fmDraws := by unfold drawEt; split <;> rfl
+@[simp] theorem drawEt_nAddr (p : Proc) : (drawEt p).2.nAddr = p.nAddr := by unfold drawEt; split <;> rfl
+@[simp] theorem drawEt_fmNo (p : Proc) : (drawEt p).2.fmNo = p.fmNo := by unfold drawEt; split <;> rfl
+@[simp] theorem drawEt_fmBuf (p : Proc) : (drawEt p).2.fmBuf = p.fmBuf := by unfold drawEt; split <;> rfl
+
+theorem rmNo_eq {p : Proc} (h : ProcOk p) : rmNo p = p.fmNo := by
+  have h2 := h.2
+  simp only [rmNo, lastAddr, fmWindow, fmGroup] at h2 ⊢
+  omega
+
+theorem no_byte {f : List Nat} {n : Nat} (hf : f.length = fmSize) (hn : n < fmProcs) : n / 8 < f.length := by
+  rw [hf]; simp only [fmSize, fmProcs] at hn ⊢; omega
+
+theorem pickNo_lt {buf : List Nat} {ds : List Nat} {n : Nat} (hd : ∀ d ∈ ds, d < fmProcs)
+    (h : pickNo buf ds = some n) : n < fmProcs ∧ bitSet buf n = false := by
+  induction ds with
+  | nil =>
+    simp only [pickNo] at h
+    have h1 := List.find?_some h
+    have h2 := List.mem_of_find?_eq_some h
+    simp only [Bool.and_eq_true, decide_eq_true_eq, Bool.not_eq_true'] at h1
+    exact ⟨List.mem_range.mp h2, h1.2⟩
+  | cons d r ih =>
+    simp only [pickNo] at h
+    split at h
+    · exact ih (fun x hx => hd x (List.mem_cons_of_mem _ hx)) h
+    · next hb =>
+      cases h
+      exact ⟨hd _ (List.mem_cons_self ..), by simpa using hb⟩
+
+theorem other_not_locked {s : Sys} (hI : FInv s) {i : Nat} (hi : i < s.procs.length)
+    (hl : (getP s i).pc.locked = true) : ∀ j, j < s.procs.length → j ≠ i → (getP s j).pc.locked = false := by
+  intro j hj hne
+  cases h : (getP s j).pc.locked
+  · rfl
+  · exact absurd (Option.some.inj ((hI.lock j hj h).symm.trans (hI.lock i hi hl))) hne
+
+/-- the `pwrite` that sets the chosen bit -/
+theorem finv_set {s : Sys} (hI : FInv s) {i : Nat} (hi : i < s.procs.length) (s1 : Sys) (p' : Proc) (n : Nat)
+    (hpr : s1.procs = s.procs) (hpc : (getP s i).pc = .fmSet)
+    (hpick : pickNo (getP s i).fmBuf (getP s i).fmDraws = some n)
+    (hfm : s1.fm = some (pwriteByte (fmOf s) (n / 8) ((getP s i).fmBuf.getD (n / 8) 0 ||| 2 ^ (n % 8))))
+    (hlk : s1.fmLock = s.fmLock)
+    (hcfg : p'.fmDraws = (getP s i).fmDraws ∧ p'.nAddr = (getP s i).nAddr)
+    (hpc' : p'.pc = .fmUnlock) (hno : p'.fmNo = n) : FInv (setP s1 i p') := by
+  have hbuf := hI.bufSet i hi hpc
+  have hl : (getP s i).pc.locked = true := by rw [hpc]; rfl
+  have hnl := other_not_locked hI hi hl
+  obtain ⟨hn, hfree⟩ := pickNo_lt (hI.cfg i hi).1 hpick
+  rw [hbuf] at hfree hfm
+  have hk := no_byte hI.file.2 hn
+  have hf1 : fmOf s1 = pwriteByte (fmOf s) (n / 8) ((fmOf s).getD (n / 8) 0 ||| 2 ^ (n % 8)) := by
+    simp [fmOf, hfm]
+  refine finv_update hI hi s1 p' hpr ?_ ?_ ?_ ?_ ?_ ?_ ?_ ?_
+  · rw [hf1, pwriteByte_len hk]; exact ⟨by simp [hfm], hI.file.2⟩
+  · have := hI.cfg i hi; unfold ProcOk at this ⊢; rw [hcfg.1, hcfg.2]; exact this
+  · intro j hj _ ho; rw [hf1, bitSet_setBit hk, (hI.own j hj ho).1]; rfl
+  · intro _
+    rw [hno, hf1, bitSet_setBit hk]
+    refine ⟨⟨by simp, hn⟩, ?_⟩
+    intro j hj _ ho e
+    have := (hI.own j hj ho).1
+    rw [e, hfree] at this; cases this
+  · refine ⟨fun _ => by rw [hlk]; exact hI.lock i hi hl, fun j hj hne h => ?_⟩
+    rw [hnl j hj hne] at h; cases h
+  · refine ⟨fun h => (by rw [hpc'] at h; cases h), fun j hj hne h => ?_⟩
+    have := hnl j hj hne; rw [h] at this; cases this
+  · refine ⟨fun h => (by rw [hpc'] at h; cases h), fun j hj hne h => ?_⟩
+    have := hnl j hj hne; rw [h] at this; cases this
+  · rw [hpc']; decide
+
+/-- the `pwrite` of `FMMULock.remove` that clears the own bit -/
+theorem finv_clear {s : Sys} (hI : FInv s) {i : Nat} (hi : i < s.procs.length) (s1 : Sys) (p' : Proc)
+    (hpr : s1.procs = s.procs) (hpc : (getP s i).pc = .fmRClear)
+    (hfm : s1.fm = some (pwriteByte (fmOf s) (rmNo (getP s i) / 8)
+      (clearBit ((getP s i).fmBuf.getD 0 0) (rmNo (getP s i) % 8))))
+    (hlk : s1.fmLock = s.fmLock)
+    (hcfg : p'.fmDraws = (getP s i).fmDraws ∧ p'.nAddr = (getP s i).nAddr)
+    (hpc' : p'.pc = .fmRUnlock) : FInv (setP s1 i p') := by
+  have hbuf := hI.bufClr i hi hpc
+  have hl : (getP s i).pc.locked = true := by rw [hpc]; rfl
+  have ho : (getP s i).pc.owns = true := by rw [hpc]; rfl
+  have hnl := other_not_locked hI hi hl
+  have hr := rmNo_eq (hI.cfg i hi)
+  have hn := (hI.own i hi ho).2
+  have hk := no_byte hI.file.2 hn
+  rw [hr, hbuf] at hfm
+  have hf1 : fmOf s1 = pwriteByte (fmOf s) ((getP s i).fmNo / 8)
+      (clearBit ((fmOf s).getD ((getP s i).fmNo / 8) 0) ((getP s i).fmNo % 8)) := by
+    simp [fmOf, hfm]
+  refine finv_update hI hi s1 p' hpr ?_ ?_ ?_ ?_ ?_ ?_ ?_ ?_
+  · rw [hf1, pwriteByte_len hk]; exact ⟨by simp [hfm], hI.file.2⟩
+  · have := hI.cfg i hi; unfold ProcOk at this ⊢; rw [hcfg.1, hcfg.2]; exact this
+  · intro j hj hne hoj
+    rw [hf1, bitSet_clearBit hk, (hI.own j hj hoj).1]
+    have hd := hI.dist j i hj hi hne hoj ho
+    have : ¬ ((getP s j).fmNo / 8 = (getP s i).fmNo / 8 ∧ (getP s j).fmNo % 8 = (getP s i).fmNo % 8) := by
+      intro ⟨a, b⟩; omega
+    simp only [Bool.true_and, Bool.not_eq_true', Bool.and_eq_false_iff, beq_eq_false_iff_ne, ne_eq]
+    by_cases a : (getP s j).fmNo / 8 = (getP s i).fmNo / 8
+    · right; exact fun b => this ⟨a, b⟩
+    · left; exact a
+  · intro h; rw [hpc'] at h; cases h
+  · refine ⟨fun _ => by rw [hlk]; exact hI.lock i hi hl, fun j hj hne h => ?_⟩
+    rw [hnl j hj hne] at h; cases h
+  · refine ⟨fun h => (by rw [hpc'] at h; cases h), fun j hj hne h => ?_⟩
+    have := hnl j hj hne; rw [h] at this; cases this
+  · refine ⟨fun h => (by rw [hpc'] at h; cases h), fun j hj hne h => ?_⟩
+    have := hnl j hj hne; rw [h] at this; cases this
+  · rw [hpc']; decide
+
+theorem finv_step {s : Sys} (hI : FInv s) (i : Nat) : FInv (step s i) := by
+  unfold step
+  split
+  case isFalse => exact hI
+  case isTrue hi =>
+    generalize hp : getP s i = p
+    cases hpc : p.pc <;> simp only [stepStart, stepFiles, stepExit, hpc]
+    all_goals (repeat' split)
+    all_goals (try exact hI)
+    all_goals (try (apply finv_local hI hi <;> first | rfl | (simp_all [emit, Pc.owns, Pc.locked]; done)))
+    all_goals first
+      | (exfalso; have := hI.file.1; simp_all; done)
+      | (exfalso; have := hI.unreach i hi; simp_all; done)
+      | (apply finv_acquire hI hi <;> first | rfl | assumption | (simp_all [emit, Pc.owns, Pc.locked]; done))
+      | (apply finv_release hI hi <;> first | rfl | (simp_all [emit, Pc.owns, Pc.locked]; done))
+      | skip
+    case fmRead.isTrue =>
+      have ht : List.take fmSize (s.fm.getD []) = fmOf s := by
+        rw [fmOf]; apply List.take_of_length_le; have := hI.file.2; rw [fmOf] at this; omega
+      apply finv_local hI hi <;> first | rfl | (simp_all [emit, Pc.owns, Pc.locked]; done)
+    case fmRead.isFalse h =>
+      exfalso; apply h
+      have := hI.file.2; rw [fmOf] at this
+      simp [this]
+    case fmRRead.isTrue =>
+      have hr : rmNo p = p.fmNo := rmNo_eq (hp ▸ hI.cfg i hi)
+      apply finv_local hI hi <;> first | rfl | (simp_all [emit, Pc.owns, Pc.locked, fmOf]; done)
+    case fmRClear =>
+      subst hp
+      apply finv_clear hI hi <;> first | rfl | exact hpc | exact ⟨rfl, rfl⟩
+    case h_1 n hn =>
+      subst hp
+      apply finv_set hI hi _ _ n <;> first | rfl | exact hpc | exact hn | exact ⟨rfl, rfl⟩
+
+theorem finv_run {s : Sys} (hI : FInv s) (sched : List Nat) : FInv (run s sched) := by
+  induction sched generalizing s with
+  | nil => exact hI
+  | cons i r ih => exact ih (finv_step hI i)
+
+/-- the participants draw process numbers below `fmProcs` (what `randrange(1, 1 << 9)` returns) and call
+`get_fmmu_addr` at most `fmWindow / fmGroup - 1` times -/
+def Bounded (cfgs : List Cfg) : Prop :=
+  ∀ c ∈ cfgs, (∀ d ∈ c.fmDraws, d < fmProcs) ∧ (c.nAddr + 1) * fmGroup ≤ fmWindow
+
+instance (cfgs : List Cfg) : Decidable (Bounded cfgs) := by unfold Bounded; infer_instance
+
+theorem getP_init' (cfgs : List Cfg) (fm0 : Option (List Nat)) (i : Nat) (hi : i < (init cfgs fm0).procs.length) :
+    (getP (init cfgs fm0) i).pc = .mkdtemp ∧
+      ∃ c ∈ cfgs, (getP (init cfgs fm0) i).fmDraws = c.fmDraws ∧ (getP (init cfgs fm0) i).nAddr = c.nAddr := by
+  simp only [init, List.length_map] at hi
+  simp only [getP, init, List.getD, List.getElem?_map, List.getElem?_eq_getElem hi, Option.map_some, Option.getD_some]
+  exact ⟨trivial, cfgs[i], List.getElem_mem hi, rfl, rfl⟩
+
+theorem finv_init (cfgs : List Cfg) (f0 : List Nat) (hf : f0.length = fmSize) (hb : Bounded cfgs) :
+    FInv (init cfgs (some f0)) := by
+  have hpc : ∀ i, i < (init cfgs (some f0)).procs.length → (getP (init cfgs (some f0)) i).pc = .mkdtemp :=
+    fun i hi => (getP_init' cfgs _ i hi).1
+  refine ⟨⟨rfl, hf⟩, ?_, ?_, ?_, ?_, ?_, ?_, ?_⟩
+  · intro i hi
+    obtain ⟨_, c, hc, e1, e2⟩ := getP_init' cfgs _ i hi
+    unfold ProcOk; rw [e1, e2]; exact hb c hc
+  · intro i hi h; rw [hpc i hi] at h; cases h
+  · intro i j hi _ _ h; rw [hpc i hi] at h; cases h
+  · intro i hi h; rw [hpc i hi] at h; cases h
+  · intro i hi h; rw [hpc i hi] at h; cases h
+  · intro i hi h; rw [hpc i hi] at h; cases h
+  · intro i hi; rw [hpc i hi]; decide
+
+/-- **C23, FMMU windows (partial)**: if the bitmap file already exists with its full size when the
+participants start (no create-then-initialise window) and nobody asks for more sync-group addresses than a
+process window holds, the logical address windows of running participants are pairwise disjoint — for every
+schedule, any number of participants, any earlier contents of the bitmap. -/
+theorem fmmu_windows_disjoint_partial (cfgs : List Cfg) (f0 : List Nat) (sched : List Nat)
+    (hf : f0.length = fmSize) (hb : Bounded cfgs) :
+    FmmuWindowsDisjoint (run (init cfgs (some f0)) sched) := by
+  have hI := finv_run (finv_init cfgs f0 hf hb) sched
+  generalize run (init cfgs (some f0)) sched = s at hI ⊢
+  intro i j hi hj hij hri hrj
+  have hoi : (getP s i).pc.owns = true := by rw [hri]; rfl
+  have hoj : (getP s j).pc.owns = true := by rw [hrj]; rfl
+  have hd := hI.dist i j hi hj hij hoi hoj
+  have hci := (hI.cfg i hi).2
+  have hcj := (hI.cfg j hj).2
+  simp only [disjoint, winLo, winLen, winBase, Bool.or_eq_true]
+  simp only [fmWindow, fmGroup] at hci hcj ⊢
+  rcases Nat.lt_or_gt_of_ne hd with h | h
+  · left; exact decide_eq_true (by omega)
+  · right; exact decide_eq_true (by omega)
+/-! ### the invariant behind `installed_while_running_partial` -/
+
+/-- the start section of `run`: everything before `LockFile(...)` -/
+def _root_.Ebv.Parallel.Pc.startSec : Pc → Bool
+  | .mkdtemp | .openTmp | .rename | .rmtreeTmp | .openLock | .objGet1 | .objGet2 | .excRemove
+  | .createMap | .removeOld | .attach | .objPin | .excRmtree => true
+  | _ => false
+
+/-- the last leaver after its successful `rmdir`, before it has finished `remove(programs)` -/
+def _root_.Ebv.Parallel.Pc.lateExit : Pc → Bool
+  | .detach | .removePin => true
+  | _ => false
+
+/-- member that is past the start section and has not begun to leave -/
+def _root_.Ebv.Parallel.Pc.post : Pc → Bool
+  | .mbxOpen | .mbxWrite | .mbxReopen | .fmOpen | .fmWrite | .fmLock | .fmRead | .fmFix | .fmTrunc | .fmSet
+  | .fmUnlock | .running => true
+  | _ => false
+
+def _root_.Ebv.Parallel.Pc.hasTable : Pc → Bool
+  | .removeOld | .attach | .objPin => true
+  | _ => false
+
+def noneLate (s : Sys) : Bool := (List.range s.procs.length).all fun j => !(getP s j).pc.lateExit
+
+/-- the step is outside the two race windows: no operation of a start section while a last leaver is between
+`rmdir` and `remove(programs)`, and no `rename` that succeeds while an old programs file exists -/
+def okStep (s : Sys) (i : Nat) : Bool :=
+  (!(getP s i).pc.startSec || noneLate s) &&
+  (!((getP s i).pc == .rename && (s.lockdir == none || s.lockdir == some [])) || s.pin == none)
+
+def Quiet (s : Sys) : List Nat → Bool
+  | [] => true
+  | i :: r => okStep s i && Quiet (step s i) r
+
+structure WI (s : Sys) : Prop where
+  instPin : ∀ i, i < s.procs.length → (getP s i).pc.install = true → s.pin = none
+  instProgs : ∀ i, i < s.procs.length → (getP s i).pc.hasTable = true → (getP s i).progs = some i
+  instAtt : ∀ i, i < s.procs.length → (getP s i).pc = .objPin → s.attached = some i
+  lateDir : ∀ i, i < s.procs.length → (getP s i).pc.lateExit = true → s.lockdir = none
+  pinAtt : ∀ m, s.pin = some m → s.attached = some m ∨ s.lockdir = none
+  post : ∀ i, i < s.procs.length → (getP s i).pc.post = true →
+    ∃ m, s.pin = some m ∧ (getP s i).progs = some m
+
+theorem wi_update {s : Sys} (hW : WI s) {i : Nat} (hi : i < s.procs.length) (s1 : Sys) (p' : Proc)
+    (hpr : s1.procs = s.procs)
+    (h1 : (p'.pc.install = true → s1.pin = none) ∧
+      ∀ j, j < s.procs.length → j ≠ i → (getP s j).pc.install = true → s1.pin = none)
+    (h2 : p'.pc.hasTable = true → p'.progs = some i)
+    (h3 : (p'.pc = .objPin → s1.attached = some i) ∧
+      ∀ j, j < s.procs.length → j ≠ i → (getP s j).pc = .objPin → s1.attached = some j)
+    (h4 : (p'.pc.lateExit = true → s1.lockdir = none) ∧
+      ∀ j, j < s.procs.length → j ≠ i → (getP s j).pc.lateExit = true → s1.lockdir = none)
+    (h5 : ∀ m, s1.pin = some m → s1.attached = some m ∨ s1.lockdir = none)
+    (h6 : (p'.pc.post = true → ∃ m, s1.pin = some m ∧ p'.progs = some m) ∧
+      ∀ j, j < s.procs.length → j ≠ i → (getP s j).pc.post = true →
+        ∃ m, s1.pin = some m ∧ (getP s j).progs = some m) : WI (setP s1 i p') := by
+  have hi1 : i < s1.procs.length := by rw [hpr]; exact hi
+  have hg : ∀ j, getP (setP s1 i p') j = if j = i then p' else getP s j := by
+    intro j; rw [getP_setP _ _ _ _ hi1]; split <;> simp [getP_congr hpr]
+  have hlen : (setP s1 i p').procs.length = s.procs.length := by simp [hpr]
+  refine ⟨?_, ?_, ?_, ?_, ?_, ?_⟩
+  · intro j hj h; rw [hlen] at hj; rw [hg] at h; simp only [setP_pin]
+    split at h
+    · exact h1.1 h
+    · next hne => exact h1.2 j hj hne h
+  · intro j hj h; rw [hlen] at hj; rw [hg] at h ⊢
+    split at h
+    · next e => simp only [e, if_true]; exact h2 h
+    · next hne => simp only [hne, if_false]; exact hW.instProgs j hj h
+  · intro j hj h; rw [hlen] at hj; rw [hg] at h; simp only [setP_attached]
+    split at h
+    · next e => rw [e]; exact h3.1 h
+    · next hne => exact h3.2 j hj hne h
+  · intro j hj h; rw [hlen] at hj; rw [hg] at h; simp only [setP_lockdir]
+    split at h
+    · exact h4.1 h
+    · next hne => exact h4.2 j hj hne h
+  · intro m hm; simp only [setP_pin, setP_attached, setP_lockdir] at hm ⊢; exact h5 m hm
+  · intro j hj h; rw [hlen] at hj; rw [hg] at h ⊢; simp only [setP_pin]
+    split at h
+    · next e => simp only [e, if_true]; exact h6.1 h
+    · next hne => simp only [hne, if_false]; exact h6.2 j hj hne h
+
+theorem wi_local {s : Sys} (hW : WI s) {i : Nat} (hi : i < s.procs.length) (s1 : Sys) (p' : Proc)
+    (hpr : s1.procs = s.procs) (hp : s1.pin = s.pin) (ha : s1.attached = s.attached)
+    (hl : s.lockdir = none → s1.lockdir = none)
+    (k1 : p'.pc.install = true → (getP s i).pc.install = true)
+    (k2 : p'.pc.hasTable = true → ((getP s i).pc.hasTable = true ∧ p'.progs = (getP s i).progs) ∨ p'.progs = some i)
+    (k3 : p'.pc = .objPin → (getP s i).pc = .objPin)
+    (k4 : p'.pc.lateExit = true → (getP s i).pc.lateExit = true ∨ s1.lockdir = none)
+    (k6 : p'.pc.post = true → ((getP s i).pc.post = true ∧ p'.progs = (getP s i).progs) ∨
+      ∃ m, s.pin = some m ∧ p'.progs = some m) :
+    WI (setP s1 i p') := by
+  refine wi_update hW hi s1 p' hpr ?_ ?_ ?_ ?_ ?_ ?_
+  · rw [hp]; exact ⟨fun h => hW.instPin i hi (k1 h), fun j hj _ h => hW.instPin j hj h⟩
+  · intro h
+    rcases k2 h with ⟨a, b⟩ | b
+    · rw [b]; exact hW.instProgs i hi a
+    · exact b
+  · rw [ha]; exact ⟨fun h => hW.instAtt i hi (k3 h), fun j hj _ h => hW.instAtt j hj h⟩
+  · refine ⟨fun h => ?_, fun j hj _ h => hl (hW.lateDir j hj h)⟩
+    rcases k4 h with a | a
+    · exact hl (hW.lateDir i hi a)
+    · exact a
+  · intro m hm; rw [hp] at hm; rw [ha]
+    rcases hW.pinAtt m hm with h | h
+    · exact Or.inl h
+    · exact Or.inr (hl h)
+  · rw [hp]
+    refine ⟨fun h => ?_, fun j hj _ h => hW.post j hj h⟩
+    rcases k6 h with ⟨a, b⟩ | b
+    · rw [b]; exact hW.post i hi a
+    · exact b
+
+theorem post_member (pc : Pc) (h : pc.post = true) : pc.member = true := by
+  cases pc <;> simp_all [Pc.post, Pc.member]
+theorem hasTable_install (pc : Pc) (h : pc.hasTable = true) : pc.install = true := by
+  cases pc <;> simp_all [Pc.hasTable, Pc.install]
+
+theorem noneLate_spec {s : Sys} (h : noneLate s = true) : ∀ j, j < s.procs.length → (getP s j).pc.lateExit = false := by
+  intro j hj
+  have := List.all_eq_true.mp h j (List.mem_range.mpr hj)
+  simpa using this
+
+/-- `rename` succeeds: nobody is a member, no last leaver is in its late exit, no old programs file -/
+theorem wi_fresh {s : Sys} (hW : WI s) {i : Nat} (hi : i < s.procs.length) (s1 : Sys) (p' : Proc)
+    (hpr : s1.procs = s.procs) (hp : s1.pin = none)
+    (hno : ∀ j, j < s.procs.length → (getP s j).pc.member = false)
+    (hnl : ∀ j, j < s.procs.length → (getP s j).pc.lateExit = false)
+    (hpc : p'.pc = .createMap) : WI (setP s1 i p') := by
+  have nm : ∀ j, j < s.procs.length → ∀ q : Prop, (getP s j).pc.member = true → q :=
+    fun j hj q h => by rw [hno j hj] at h; cases h
+  refine wi_update hW hi s1 p' hpr ⟨fun _ => hp, fun _ _ _ _ => hp⟩ ?_ ?_ ?_ ?_ ?_
+  · rw [hpc]; intro h; cases h
+  · refine ⟨(by rw [hpc]; intro h; cases h), fun j hj _ h => nm j hj _ ?_⟩
+    rw [h]; rfl
+  · refine ⟨(by rw [hpc]; intro h; cases h), fun j hj _ h => ?_⟩
+    rw [hnl j hj] at h; cases h
+  · intro m hm; rw [hp] at hm; cases hm
+  · refine ⟨(by rw [hpc]; intro h; cases h), fun j hj _ h => nm j hj _ (post_member _ h)⟩
+
+/-- netlink attach by the installer -/
+theorem wi_attach {s : Sys} (hB : Inv s) (hW : WI s) {i : Nat} (hi : i < s.procs.length) (s1 : Sys) (p' : Proc)
+    (hpr : s1.procs = s.procs) (hp : s1.pin = s.pin) (ha : s1.attached = some i) (hl : s1.lockdir = s.lockdir)
+    (hwas : (getP s i).pc = .attach) (hpc : p'.pc = .objPin) (hg : p'.progs = (getP s i).progs) :
+    WI (setP s1 i p') := by
+  have hin : (getP s i).pc.install = true := by rw [hwas]; rfl
+  have hpn := hW.instPin i hi hin
+  have oth : ∀ j, j < s.procs.length → j ≠ i → ∀ q : Prop, (getP s j).pc.install = true → q :=
+    fun j hj hne q h => absurd ⟨h, hin⟩ (hB.single j i hj hi hne)
+  refine wi_update hW hi s1 p' hpr ?_ ?_ ?_ ?_ ?_ ?_
+  · rw [hp, hpn]; exact ⟨fun _ => rfl, fun _ _ _ _ => rfl⟩
+  · intro _; rw [hg]; exact hW.instProgs i hi (by rw [hwas]; rfl)
+  · refine ⟨fun _ => ha, fun j hj hne h => oth j hj hne _ (by rw [h]; rfl)⟩
+  · rw [hl]; exact ⟨(by rw [hpc]; intro h; cases h), fun j hj _ h => hW.lateDir j hj h⟩
+  · intro m hm; rw [hp, hpn] at hm; cases hm
+  · rw [hp, hpn]
+    refine ⟨(by rw [hpc]; intro h; cases h), fun j hj _ h => ?_⟩
+    obtain ⟨m, hm, _⟩ := hW.post j hj h; rw [hpn] at hm; cases hm
+
+/-- `obj_pin` succeeds -/
+theorem wi_pin {s : Sys} (hB : Inv s) (hW : WI s) {i : Nat} (hi : i < s.procs.length) (s1 : Sys) (p' : Proc)
+    (hpr : s1.procs = s.procs) (hp : s1.pin = some i) (ha : s1.attached = s.attached) (hl : s1.lockdir = s.lockdir)
+    (hwas : (getP s i).pc = .objPin) (hpc : p'.pc = .mbxOpen) (hg : p'.progs = (getP s i).progs) :
+    WI (setP s1 i p') := by
+  have hin : (getP s i).pc.install = true := by rw [hwas]; rfl
+  have hpn := hW.instPin i hi hin
+  have oth : ∀ j, j < s.procs.length → j ≠ i → ∀ q : Prop, (getP s j).pc.install = true → q :=
+    fun j hj hne q h => absurd ⟨h, hin⟩ (hB.single j i hj hi hne)
+  refine wi_update hW hi s1 p' hpr ?_ ?_ ?_ ?_ ?_ ?_
+  · exact ⟨(by rw [hpc]; intro h; cases h), fun j hj hne h => oth j hj hne _ h⟩
+  · rw [hpc]; intro h; cases h
+  · exact ⟨(by rw [hpc]; intro h; cases h), fun j hj hne h => oth j hj hne _ (by rw [h]; rfl)⟩
+  · rw [hl]; exact ⟨(by rw [hpc]; intro h; cases h), fun j hj _ h => hW.lateDir j hj h⟩
+  · intro m hm; rw [hp] at hm; cases hm; rw [ha]; exact Or.inl (hW.instAtt i hi hwas)
+  · rw [hp]
+    refine ⟨fun _ => ⟨i, rfl, ?_⟩, fun j hj _ h => ?_⟩
+    · rw [hg]; exact hW.instProgs i hi (by rw [hwas]; rfl)
+    · obtain ⟨m, hm, _⟩ := hW.post j hj h; rw [hpn] at hm; cases hm
+
+/-- `detach` / `remove(programs)` by the last leaver: the lock directory is gone, so nobody is a member -/
+theorem wi_late {s : Sys} (hB : Inv s) (hW : WI s) {i : Nat} (hi : i < s.procs.length) (s1 : Sys) (p' : Proc)
+    (hpr : s1.procs = s.procs) (hl : s1.lockdir = s.lockdir)
+    (hwas : (getP s i).pc.lateExit = true)
+    (hpa : (s1.pin = s.pin ∧ s1.attached = none ∧ p'.pc = .removePin) ∨
+      (s1.pin = none ∧ p'.pc = .mbxRemove)) : WI (setP s1 i p') := by
+  have hd := hW.lateDir i hi hwas
+  have nm : ∀ j, j < s.procs.length → ∀ q : Prop, (getP s j).pc.member = true → q := by
+    intro j hj q h
+    obtain ⟨ms, h1, _⟩ := hB.mem j hj h
+    rw [hd] at h1; cases h1
+  have hpc : p'.pc = .removePin ∨ p'.pc = .mbxRemove := by
+    rcases hpa with ⟨_, _, h⟩ | ⟨_, h⟩
+    · exact Or.inl h
+    · exact Or.inr h
+  refine wi_update hW hi s1 p' hpr ?_ ?_ ?_ ?_ ?_ ?_
+  · refine ⟨?_, fun j hj _ h => nm j hj _ (install_member _ h)⟩
+    rcases hpc with h | h <;> rw [h] <;> intro x <;> cases x
+  · rcases hpc with h | h <;> rw [h] <;> intro x <;> cases x
+  · refine ⟨?_, fun j hj _ h => nm j hj _ (by rw [h]; rfl)⟩
+    rcases hpc with h | h <;> rw [h] <;> intro x <;> cases x
+  · rw [hl]; exact ⟨fun _ => hd, fun j hj _ h => hW.lateDir j hj h⟩
+  · intro m _; rw [hl]; exact Or.inr hd
+  · refine ⟨?_, fun j hj _ h => nm j hj _ (post_member _ h)⟩
+    rcases hpc with h | h <;> rw [h] <;> intro x <;> cases x
+
+theorem wi_step {s : Sys} (hB : Inv s) (hW : WI s) (i : Nat) (hok : okStep s i = true) : WI (step s i) := by
+  unfold step
+  split
+  case isFalse => exact hW
+  case isTrue hi =>
+    generalize hp : getP s i = p
+    cases hpc : p.pc <;> simp only [stepStart, stepFiles, stepExit, hpc]
+    all_goals (repeat' split)
+    all_goals (try exact hW)
+    all_goals (try (apply wi_local hW hi <;> first | rfl | (simp_all [emit, Pc.install, Pc.hasTable, Pc.lateExit, Pc.post]; done)))
+    all_goals subst hp
+    all_goals first
+      | (exfalso; have := hW.instPin i hi (by rw [hpc]; rfl); simp_all; done)
+      | (apply wi_attach hB hW hi <;> first | rfl | exact hpc)
+      | (apply wi_pin hB hW hi <;> first | rfl | exact hpc)
+      | (apply wi_late hB hW hi <;> first | rfl | (rw [hpc]; rfl) | exact Or.inl ⟨rfl, rfl, rfl⟩ | exact Or.inr ⟨rfl, rfl⟩)
+      | skip
+    all_goals
+      (have hq : noneLate s = true ∧ s.pin = none := by
+        simp only [okStep, hpc, Pc.startSec] at hok
+        simp_all
+       apply wi_fresh hW hi <;> first
+         | rfl | exact hq.2 | exact nomem hB (by simp_all) | exact noneLate_spec hq.1)
+
+theorem wi_run {s : Sys} (hB : Inv s) (hW : WI s) (sched : List Nat) (hq : Quiet s sched = true) :
+    Inv (run s sched) ∧ WI (run s sched) := by
+  induction sched generalizing s with
+  | nil => exact ⟨hB, hW⟩
+  | cons i r ih =>
+    simp only [Quiet, Bool.and_eq_true] at hq
+    exact ih (inv_step hB i) (wi_step hB hW i hq.1) hq.2
+
+theorem wi_init (cfgs : List Cfg) (fm0 : Option (List Nat)) : WI (init cfgs fm0) := by
+  have hpc : ∀ i, i < (init cfgs fm0).procs.length → (getP (init cfgs fm0) i).pc = .mkdtemp :=
+    fun i hi => (getP_init cfgs fm0 i hi).1
+  refine ⟨?_, ?_, ?_, ?_, ?_, ?_⟩
+  · intro i hi h; rw [hpc i hi] at h; cases h
+  · intro i hi h; rw [hpc i hi] at h; cases h
+  · intro i hi h; rw [hpc i hi] at h; cases h
+  · intro i hi h; rw [hpc i hi] at h; cases h
+  · intro m h; cases h
+  · intro i hi h; rw [hpc i hi] at h; cases h
+
+/-- **C23, installed while running (partial)**: along every schedule (any number of participants, crashes
+included) that never lets a participant perform an operation of its start section while a last leaver is
+between its `rmdir` and the end of `remove(programs)`, and never lets a `rename` succeed while an old
+programs file exists, every running participant finds a dispatcher attached, the program table pinned, and
+both are the table it uses itself. -/
+theorem installed_while_running_partial (cfgs : List Cfg) (fm0 : Option (List Nat)) (sched : List Nat)
+    (hf : NoFault cfgs) (hq : Quiet (init cfgs fm0) sched = true) :
+    InstalledWhileRunning (run (init cfgs fm0) sched) := by
+  obtain ⟨hB, hW⟩ := wi_run (inv_init cfgs fm0 hf) (wi_init cfgs fm0) sched hq
+  generalize run (init cfgs fm0) sched = s at hB hW
+  intro i hi hr
+  have hp : (getP s i).pc.post = true := by rw [hr]; rfl
+  obtain ⟨m, hm, hg⟩ := hW.post i hi hp
+  refine ⟨m, ?_, hm, hg⟩
+  rcases hW.pinAtt m hm with h | h
+  · exact h
+  · obtain ⟨ms, h1, _⟩ := hB.mem i hi (post_member _ hp)
+    rw [h] at h1; cases h1
+
+/-- the hypothesis about old programs files is needed on its own: participant 0 installs; participant 1 joins
+but both its `obj_get` come too early, it stays in its `except` path; participant 0 runs and leaves (its
+`rmdir` fails: participant 1's file is still there, so dispatcher and pin stay); participant 1's clean-up then
+empties the lock directory.  No last leaver is ever in its late exit.  Participant 2 renames over the empty
+directory, participant 3 joins and picks up the *old* table, runs — and participant 2 removes the old
+programs file. -/
+def staleCfgs : List Cfg := [{}, { etDraws := [12288] }, {}, { etDraws := [12288], fmDraws := [3] }]
+def staleSched : List Nat :=
+  List.replicate 3 0 ++ List.replicate 8 1 ++ List.replicate 11 0 ++ [1] ++ List.replicate 3 2 ++
+    List.replicate 14 3 ++ List.replicate 2 2
+
+theorem installed_while_running_stale_refuted :
+    ¬ InstalledWhileRunning (run (init staleCfgs none) staleSched) := by
+  intro h
+  have := installedB_sound _ h
+  revert this
+  decide +kernel
+
+/-! ### non-vacuity -/
+
+/-- an orderly life cycle satisfies `Quiet`: 0 installs and runs, 1 joins and runs, 0 leaves (not last), 1
+leaves as last leaver and tears everything down, then 2 starts a new session and runs -/
+def orderlyCfgs : List Cfg := [{}, { etDraws := [12288], fmDraws := [2] }, { fmDraws := [5] }]
+def orderlySched : List Nat :=
+  List.replicate 11 0 ++ List.replicate 14 1 ++ List.replicate 3 0 ++ List.replicate 11 1 ++ List.replicate 14 2
+
+example : NoFault orderlyCfgs ∧ Quiet (init orderlyCfgs none) orderlySched = true := by decide +kernel
+example : (getP (run (init orderlyCfgs none) orderlySched) 2).pc = .running ∧
+    (getP (run (init orderlyCfgs none) orderlySched) 1).pc = .done := by decide +kernel
+/-- two participants run side by side (so the clauses talk about something) -/
+example : (getP (run (init orderlyCfgs none) (orderlySched.take 25)) 0).pc = .running ∧
+    (getP (run (init orderlyCfgs none) (orderlySched.take 25)) 1).pc = .running ∧
+    (getP (run (init orderlyCfgs none) (orderlySched.take 25)) 0).et ≠
+      (getP (run (init orderlyCfgs none) (orderlySched.take 25)) 1).et := by decide +kernel
+/-- the witness schedules violate exactly the excluded hypotheses -/
+example : Quiet (init raceCfgs none) raceSched = false := by decide +kernel
+example : Quiet (init staleCfgs none) staleSched = false := by decide +kernel
+example : Bounded orderlyCfgs ∧ fmInit.length = fmSize := by decide
+example : ¬ Bounded overflowCfgs := by decide
+/-- with an initialised file both take the locked path and get different process numbers -/
+def initedSys : Sys := run (init orderlyCfgs (some fmInit)) (List.replicate 14 0 ++ List.replicate 14 1)
+example : (getP initedSys 0).pc = .running ∧ (getP initedSys 1).pc = .running ∧
+    (getP initedSys 0).fmNo = 2 ∧ (getP initedSys 1).fmNo = 3 := by decide +kernel
 
 end Ebv.C23
